@@ -277,14 +277,14 @@ fn main() {
             (true, true) => 5,
         })
         .collect();
-    let wall = args.wall_s.unwrap_or(if thorough { 25 * 60 } else { 50 });
+    let wall = args.wall_s.unwrap_or(if thorough { 28 * 60 } else { 50 });
     let cfg = Cfg { wall: Duration::from_secs(wall), threads: mc_core::cli::threads(), max_unknown: 12 };
     let stats = explore::explore("C08", &scns, &bounds, &cfg, &mut reporter);
 
     let mut ev = Evidence::new("C08", &args.tier, "exploration");
     stats.fill(
         &mut ev,
-        "each evaluation is one complete execution of the real actix HTTP/2 server connection against an h2 0.3 client whose flow-control behaviour is enumerated (after every DATA frame: release all / 1 byte / nothing; order of deferred releases; one RST_STREAM at any event boundary), for every scenario (windows x bodies x methods x statuses x headers x concurrent streams x uploads) and every combination of at most `deviation_bound_completed` non-default peer answers. distinct = distinct canonical observation (per stream: status, headers by name with date masked, DATA frame sizes, release pattern, how the stream ended, what the handler read). non-trivial = in that execution some body chunk arrived split over >= 2 DATA frames at an offset forced by the peer's window (not by the 16 384 cap), or an upload larger than the server's stream window was read completely by the handler",
+        "each evaluation is one complete execution of the real actix HTTP/2 server connection against an h2 0.3 client whose flow-control behaviour is enumerated (after every DATA frame: release all / 1 byte / nothing; order of deferred releases; one RST_STREAM at any event boundary), for every scenario (windows x bodies x methods x statuses x headers x concurrent streams x uploads) and every combination of at most `deviation_bound_other_scenarios` (core scenarios: `deviation_bound_core_scenarios`) non-default peer answers. distinct = distinct canonical observation (per stream: status, headers by name with date masked, DATA frame sizes, release pattern, how the stream ended, what the handler read). non-trivial = in that execution some body chunk arrived split over >= 2 DATA frames at an offset forced by the peer's window (not by the 16 384 cap), or an upload larger than the server's stream window was read completely by the handler",
     );
     ev.set("scenario_names", json!(scns.iter().map(|s| s.0.name.clone()).collect::<Vec<_>>()));
     if let Some(o) = &only {
@@ -297,6 +297,8 @@ fn main() {
     ev.set("findings", json!(reporter.summaries()));
     ev.assume("the h2 0.3.27 client and tokio's LocalSet/paused clock are deterministic for a fixed sequence of peer actions (checked: default and failing schedules are executed twice and must give identical observations)");
     ev.assume("task interleaving inside the server is the FIFO order of one LocalSet; only the peer's behaviour is enumerated, as the property quantifies over it");
+    ev.assume("a reset is offered at every event boundary after the request HEADERS were flushed (h2 0.3.27 as a client would otherwise put a bare RST_STREAM for an idle stream on the wire, a protocol violation by the peer); reset-by-dropping-the-handles is not combined with an upload in flight (the same client library then emits zero-length DATA frames without end)");
+    ev.assume("connection window 'small' means a target of 9 bytes: HTTP/2 fixes the initial connection window at 65 535, so it only bites once more than 65 535 bytes were sent; those scenarios use bodies of 65 580 bytes");
     ev.assume("response bodies report a truthful size(); handler-set content-length on streaming bodies is truthful");
     ev.wall_s = start.elapsed().as_secs_f64();
     ev.violations = reporter.unknown_count() as i64;
